@@ -184,6 +184,7 @@ func c06Notary(w *core.WorkerCtx) {
 		propose(ledger.ForgeTrx(u[0], u[i].Addr, fmt.Sprintf("fund %d", i), nil, spice.Melange{Currency: 1000}, time.Now().Add(-time.Minute)))
 	}
 	ops := w.Pick(24, 300)
+	var lateOrphans []ledger.H
 	for i := 0; i < ops; i++ {
 		a, b := u[rng.Intn(len(u))], u[rng.Intn(len(u))]
 		if a == b {
@@ -227,6 +228,20 @@ func c06Notary(w *core.WorkerCtx) {
 			_, opErr = rig.Gossip.GossipVrx(ctx, &protobufcompiled.VrxMsgGossip{Vertex: gossip.VerifVertexToProtoVertex(&pv)})
 			for k := 0; k < 4; k++ {
 				rig.Book.VerifRetryOne(ctx)
+			}
+			// the node's own retry ticker may have taken the parked copy at any moment; wait (bounded) until the copy
+			// is in the ledger, and remember it when it is not: it can still be admitted during a later operation
+			admitted := false
+			for try := 0; try < 400 && !admitted; try++ {
+				if _, err := rig.Book.ReadVertex(ctx, cv.Hash); err == nil {
+					admitted = true
+				} else {
+					rig.Book.VerifRetryOne(ctx)
+					time.Sleep(5 * time.Millisecond)
+				}
+			}
+			if !admitted {
+				lateOrphans = append(lateOrphans, cv.Hash)
 			}
 		default:
 			s, _ := ledger.TakeSnap(rig.Book)
